@@ -50,6 +50,67 @@ func (c *ctx) inputAccounting() {
 			return true
 		})
 		if table == nil {
+			// ... or a local initialised by a helper that builds and returns that table
+			ast.Inspect(fd.Body, func(n ast.Node) bool {
+				var lhs []ast.Expr
+				var rhs []ast.Expr
+				switch x := n.(type) {
+				case *ast.AssignStmt:
+					lhs, rhs = x.Lhs, x.Rhs
+				case *ast.ValueSpec:
+					for _, nm := range x.Names {
+						lhs = append(lhs, nm)
+					}
+					rhs = x.Values
+				default:
+					return true
+				}
+				if len(lhs) != len(rhs) {
+					return true
+				}
+				for i, r := range rhs {
+					call, ok := astx.Unparen(r).(*ast.CallExpr)
+					if !ok {
+						continue
+					}
+					fn := astx.Callee(info, call)
+					if fn == nil || fn.Pkg() != c.inter.Types {
+						continue
+					}
+					for _, f2 := range c.files {
+						d := astx.DeclOfFunc(info, []*ast.File{f2.file}, fn)
+						if d == nil || d.Body == nil {
+							continue
+						}
+						fills := false
+						ast.Inspect(d.Body, func(m ast.Node) bool {
+							rs, ok := m.(*ast.RangeStmt)
+							if !ok {
+								return true
+							}
+							if se, ok := astx.Unparen(rs.X).(*ast.SelectorExpr); ok && se.Sel.Name == "Inputs" {
+								ast.Inspect(rs.Body, func(k ast.Node) bool {
+									if c2, ok := k.(*ast.CallExpr); ok {
+										if se, ok := c2.Fun.(*ast.SelectorExpr); ok && se.Sel.Name == "Set" {
+											fills = true
+										}
+									}
+									return true
+								})
+							}
+							return true
+						})
+						if fills {
+							if id, ok := lhs[i].(*ast.Ident); ok {
+								table = astx.ObjOf(info, id)
+							}
+						}
+					}
+				}
+				return true
+			})
+		}
+		if table == nil {
 			c.s.Unk("G32", "compiler.validateFuncs|table of unconsumed Params", c.pos(fd), "no table filled from flow.Inputs found")
 		} else {
 			nDel := 0
